@@ -48,7 +48,7 @@ DEFAULTS = {
     "thorough": {"budget_s": 900, "chunk": 100, "per_run_wall": 120,
                  "minimise_s": 300},
 }
-REQUIRED_PROBES = ["other_index_built_in_between", "match_on_tree_position_0", "only_pair_is_0_0", "perm_reverse",
+REQUIRED_PROBES = ["self_query_same_objects", "other_index_built_in_between", "match_on_tree_position_0", "only_pair_is_0_0", "perm_reverse",
                    "perm_random", "perm_identity", "haversine", "kdtree",
                    "unit_string_radius", "duplicates_in_build", "large_build",
                    "empty_answer"]
@@ -143,6 +143,8 @@ def gen_workload(tape):
         q["rsel"] = tape.choice(10 ** 6, "rsel")
         q["rmode"] = tape.pick(["between", "between", "tiny", "huge", "between"], "rmode")
         q["unit"] = tape.pick(["number", "km", "m", "miles", "number"], "unit")
+        # query the index with the very array objects it was built from
+        q["self_query"] = tape.flag("self_query", 1, 6)
         qs.append(q)
     w["queries"] = qs
     return w
@@ -216,6 +218,8 @@ def run_one(tape, only=None):
             else:
                 pts.append(((a % 18001) / 100.0 - 90.0, ((a // 7) % 36000) / 100.0 - 180.0))
         qp = np.array(pts, dtype=float)
+        if q["self_query"] and n <= 300:
+            qp = build
         D = arc_matrix(build, qp, R) if metric == "haversine" else chord_matrix(build, qp, R)
         vals = np.unique(np.round(D.ravel(), 9))
         if q["rmode"] == "tiny":
@@ -269,7 +273,8 @@ def run_one(tape, only=None):
     with patched((gmod, "np", proxy)), warnings.catch_warnings():
         warnings.simplefilter("ignore")
         try:
-            index = GeoIndex(build[:, 0].copy(), build[:, 1].copy(), metric=w["metric"],
+            blat, blon = build[:, 0].copy(), build[:, 1].copy()
+            index = GeoIndex(blat, blon, metric=w["metric"],
                              tree_class=w["tree"], shuffle=w["shuffle"], **kw)
         except Exception as e:  # noqa
             V.append(_viol(f"C06/build/exception/{type(e).__name__}", f"{e}"[:300]))
@@ -303,7 +308,11 @@ def run_one(tape, only=None):
                 if q["unit"] != "number":
                     probe("unit_string_radius")
                 try:
-                    pairs, dist = index.query(qp[:, 0].copy(), qp[:, 1].copy(), r=spell)
+                    if qp is build:
+                        probe("self_query_same_objects")
+                        pairs, dist = index.query(blat, blon, r=spell)
+                    else:
+                        pairs, dist = index.query(qp[:, 0].copy(), qp[:, 1].copy(), r=spell)
                 except Exception as e:  # noqa
                     V.append(_viol(f"C06/query/exception/{type(e).__name__}",
                                    f"query {qi} r={spell}: {e}"[:300]))
